@@ -26,6 +26,7 @@ type JobCfg struct {
 	TimeoutS        int               `json:"timeout_s"`
 	SolverTimeoutMs int               `json:"solver_timeout_ms"`
 	Solver          string            `json:"solver"`
+	Params          map[string]int    `json:"params"`
 }
 
 func (c *JobCfg) defaults() {
